@@ -440,3 +440,13 @@ func VerifSessionKeys(ourPriv []byte, ourPub, theirPub *big.Int, v int) [][]byte
 	k := calculateDHSessionKeys(secretKeyValue(makeCopy(ourPriv)), ourPub, theirPub, verifVersion(v))
 	return [][]byte{makeCopy(k.sendingAESKey), makeCopy(k.receivingAESKey), makeCopy(k.sendingMACKey), makeCopy(k.receivingMACKey), makeCopy(k.extraKey)}
 }
+
+// VerifNextCounter is the counter the next data message of c would carry (reads only).
+func VerifNextCounter(c *Conversation) uint64 {
+	for _, k := range c.keys.counterHistory.counters {
+		if k.ourKeyID == c.keys.ourKeyID-1 && k.theirKeyID == c.keys.theirKeyID && k.ourCounter != 0 {
+			return k.ourCounter
+		}
+	}
+	return 1
+}
